@@ -2,8 +2,10 @@ package families
 
 import (
 	"fmt"
+	"strings"
 
 	"verif/core"
+	"verif/e2/check"
 	"verif/e2/pipe"
 	"verif/e2/spec"
 )
@@ -20,7 +22,8 @@ import (
 //   - trailing slashes, the root path, absolute ("//") routes,
 //   - {*wildcard} path parameters,
 //   - file servers (single file, directory with wildcard), alone and under an API base path,
-//   - several services sharing path suffixes under different base paths.
+//   - several services sharing path suffixes under different base paths,
+//   - security requirements at API / service level with a method opting out (NoSecurity).
 //
 // The designs are given to goa as they are: a design goa rejects is simply not linked (it is
 // outside the property's quantifier "accepted designs") and is counted in the evidence notes.
@@ -154,6 +157,44 @@ func RoutesSpecs() []*spec.Spec {
 		f := map[string]string{"route": "files", "files": fsd.label}
 		add(&spec.Spec{APIPath: fsd.api, Services: []*spec.Service{{Name: "s0", Files: fsd.files, Methods: []*spec.Method{basic(0, "GET", "/m0", f)}}}})
 	}
+	// security inheritance: requirement at API or service level, one method inheriting it and
+	// one method opting out with NoSecurity (the shared security family's override cases carry
+	// credential attributes on the NoSecurity method, which goa rejects)
+	{
+		secM := func(n int, kind string, feat map[string]string) *spec.Method {
+			m := routeMethod(n, "POST", fmt.Sprintf("/m%d", n), feat, spec.A("data", str()))
+			m.Feat["route"] = "security"
+			add := func(a *spec.Attr) {
+				m.Payload.Attrs = append(m.Payload.Attrs, a)
+				m.Payload.Required = append(m.Payload.Required, a.Name)
+			}
+			switch kind {
+			case "basic":
+				add(&spec.Attr{Name: "usr", T: str(), Sec: "username"})
+				add(&spec.Attr{Name: "pwd", T: str(), Sec: "password"})
+			case "apikey":
+				add(&spec.Attr{Name: "keyh", T: str(), Sec: "apikey:aks"})
+				m.HTTP.Headers = append(m.HTTP.Headers, spec.Map{Attr: "keyh", Wire: "X-Key"})
+			case "jwt":
+				add(&spec.Attr{Name: "tok", T: str(), Sec: "token"})
+				m.HTTP.Headers = append(m.HTTP.Headers, spec.Map{Attr: "tok", Wire: "Authorization"})
+			}
+			return m
+		}
+		none := &spec.Security{None: true}
+		for _, k := range []struct{ kind, scheme string }{{"basic", "bsc"}, {"apikey", "aks"}, {"jwt", "jwt"}} {
+			req := &spec.Security{Reqs: []spec.Requirement{{{Scheme: k.scheme}}}}
+			m1 := secM(1, "", map[string]string{"level": "api", "override": "nosecurity", "reqs": k.scheme})
+			m1.Security = none
+			add(&spec.Spec{Schemes: spec.SecSchemes(), Security: req, Services: []*spec.Service{{Name: "s0", Methods: []*spec.Method{
+				secM(0, k.kind, map[string]string{"level": "api", "override": "none", "reqs": k.scheme}), m1}}}})
+			m3 := secM(1, "", map[string]string{"level": "service", "override": "nosecurity", "reqs": k.scheme})
+			m3.Security = none
+			add(&spec.Spec{Schemes: spec.SecSchemes(), Services: []*spec.Service{{Name: "s0", Security: req, Methods: []*spec.Method{
+				secM(0, k.kind, map[string]string{"level": "service", "override": "none", "reqs": k.scheme}), m3}},
+				{Name: "s1", Methods: []*spec.Method{secM(2, "", map[string]string{"level": "none", "override": "none", "reqs": "-"})}}}})
+		}
+	}
 	// several services sharing path suffixes under different base paths
 	add(&spec.Spec{APIPath: "/v2", Services: []*spec.Service{
 		{Name: "s0", Path: "/a", Methods: []*spec.Method{basic(0, "GET", "/x", map[string]string{"route": "services", "shape": "same-suffix"}), basic(1, "POST", "/x", map[string]string{"route": "services", "shape": "same-suffix"})}},
@@ -198,3 +239,35 @@ func BuildRoutes(c *core.Ctx) (*pipe.Corpus, error) {
 	}
 	return corpus, nil
 }
+
+// ValidationIsolated is the body-located part of the validation family packed one method per
+// design. goa's OpenAPI 3 builder names one schema per structural hash, so in the shared
+// validation corpora (eight methods per service, all with a body {aa: T}) most operations are
+// documented with the schema of the first method of the same shape; with one method per design
+// every operation owns its schemas and a divergence is attributable to the keyword under test
+// (C14). Cases in which the validated attribute travels outside the body use inline parameter
+// schemas and stay in the shared corpora.
+func ValidationIsolated(side string, thorough bool) check.Family {
+	var cases []spec.MethodCase
+	for _, mc := range spec.L1Validation(side, thorough) {
+		if mc.M.Feat["loc"] == spec.LocBody {
+			cases = append(cases, mc)
+		}
+	}
+	return check.Family{Name: "val-" + side[:1] + "-iso-" + tierName(thorough), Cases: cases, PerService: 1, PerDesign: 1}
+}
+
+// SingleIsolated is the body-located part of the type x requiredness singles, one method per
+// design (same reason as ValidationIsolated: "optional" and "default" variants of one type
+// share a structural hash).
+func SingleIsolated(side string) check.Family {
+	var cases []spec.MethodCase
+	for _, mc := range spec.L1Single(side) {
+		if mc.M.Feat["loc"] == spec.LocBody {
+			cases = append(cases, mc)
+		}
+	}
+	return check.Family{Name: "l1" + side[:1] + "-single-iso", Cases: cases, PerService: 1, PerDesign: 1}
+}
+
+var _ = strings.HasPrefix
